@@ -27,7 +27,7 @@ import vlib
 from props import engine_common as ec
 
 PID = "C06"
-LEAN_MODULES = ["QbiceVerif.Props.C06"]
+LEAN_MODULES = ["QbiceVerif.Props.C06", "QbiceVerif.Props.C06Inc"]
 DRIVER = "drv_engine"
 HARNESS_BIN = "engine"
 HARNESS_FEATURES = ""
@@ -37,10 +37,10 @@ TOGGLE_SETS = [
     ["f2"],
     ["f2", "f3"],
     ["f2", "f16"],
-    ["f2", "f3", "f16", "f21"],                  # = fixes/C06-combined-F2-F3-F16-F21.diff
-    ["f2", "f3", "f16", "f21", "f22"],
-    ["f2", "f3", "f14", "f16", "f21", "f22"],
-    ["f1", "f2", "f3", "f14", "f16", "f21", "f22"],   # + the C01 findings F1/F14 (firewalls), which cyclic programs hit too
+    ["f2", "f3", "f16", "f31"],                  # = fixes/C06-combined-F2-F3-F16-F31.diff
+    ["f2", "f3", "f16", "f31", "f32"],
+    ["f2", "f3", "f14", "f16", "f31", "f32"],
+    ["f1", "f2", "f3", "f14", "f16", "f31", "f32"],   # + the C01 findings F1/F14 (firewalls), which cyclic programs hit too
 ]
 
 PARTIAL = [
@@ -50,10 +50,10 @@ PARTIAL = [
     "is not proved; it is left to the harness oracle (root order of each case) and to harness/src/bin/cycprobe.rs "
     "(200 000 random cyclic programs, 0 order-dependent).",
     "cycle_incremental (values after edits that create/remove cycles equal the from-scratch values) is FALSE for the "
-    "code as it is: findings F2, F3, F16, F20, F21, F22 (canonical replays in corpus/engine-cyclic, witnesses "
+    "code as it is: findings F2, F3, F16, F30, F31, F32 (canonical replays in corpus/engine-cyclic, witnesses "
     "checked against the real engine on every run). Not proved for a repaired configuration: the toggled model "
-    "{f2,f3,f16,f21} meets the oracle on all generated programs without firewalls/projections, and with them only "
-    "up to the residual recorded as F22/F20/F1/F14.",
+    "{f2,f3,f16,f31} meets the oracle on all generated programs without firewalls/projections, and with them only "
+    "up to the residual recorded as F32/F30/F1/F14.",
     "concurrent requests (two tasks entering one SCC from two sides) are outside these sequential models (C02's LTS).",
 ]
 ASSUMPTIONS = [
@@ -179,7 +179,7 @@ def run_fresh(binpath, ctx, i, n):
             return {"error": f"driver {name} exited {rc}: {err[-1000:]}"}
         n_lines, diffs = vlib.diff_streams(os.path.join(outdir, "impl.txt"), path, os.path.join(outdir, "ops.txt"), limit=2)
         res["lines"] += n_lines
-        res["diffs"] += [{"model": name + ", fresh evaluation under all root orders", **d} for d in diffs]
+        res["diffs"] += [{"which": name + ", fresh evaluation under all root orders", **d} for d in diffs]
     return res
 
 
@@ -264,9 +264,9 @@ def fill(res, an):
         for r in a["unexplained"]:
             res.oracle_failures.append({"sig": "C06:unexplained", "desc": f"{r['line']} -> {r['impl']} expected {r['expected']} (neither predicted by the as-is model nor repaired by a known finding's toggles)", "case": r["case"]})
         for d in a["disagree"]:
-            res.disagreements.append({"model": "full as-is (Model/Engine.lean)", **d})
+            res.disagreements.append({"which": "full as-is (Model/Engine.lean)", **d})
         for d in a["cyc_disagree"]:
-            res.disagreements.append({"model": "cycle model (Model/Cycle.lean)", **d})
+            res.disagreements.append({"which": "cycle model (Model/Cycle.lean)", **d})
 
 
 def run(ctx):
